@@ -245,7 +245,7 @@ pub fn lex(src: &[u8]) -> RefLex
 	{
 		let x = src[i];
 		let start = i;
-		let mut push = |out: &mut RefLex, kind: String, end: usize| {
+		let push = |out: &mut RefLex, kind: String, end: usize| {
 			out.toks.push(NTok {
 				kind,
 				start,
